@@ -64,9 +64,33 @@ def judge_name(case) -> Verdict:
     rendered_name = p.line.split()[1]
     if not rendered_name.isdigit() and table.get(rendered_name) != nr:
         v.fail("name:rendered-name-not-in-table", {"case": case, "rendered": p.line})
-    # through Ace: name on both sides, 'log' must stay an option
-    for port_nr in (False, True):
-        ace = Ace(f"permit {proto} any eq {name} any eq {name} log", platform=platform, version=version, port_nr=port_nr)
+    if platform == "ios":
+        # one port written twice in a list, in two spellings (the name and its number, two names of one number)
+        twins = [str(nr)] + sorted(n for n, x in table.items() if x == nr and n != name)
+        for other in twins:
+            for text in (f"eq {name} {other}", f"eq {other} {name}"):
+                for port_nr in (False, True):
+                    try:
+                        pp = Port(text, port_nr=port_nr, **kw)
+                    except ValueError:
+                        v.label("twice-in-a-list-refused")
+                        continue
+                    if set(pp.ports) != {nr}:
+                        v.fail("name:two-spellings-in-a-list:other-numbers", {"case": case, "text": text, "ports": pp.ports[:5]})
+                        continue
+                    try:
+                        back = Port(pp.line, port_nr=port_nr, **kw)
+                    except ValueError as ex:
+                        v.fail("name:two-spellings-in-a-list:rendered-text-rejected",
+                               {"case": case, "text": text, "rendered": pp.line, "error": str(ex)[:160]})
+                        continue
+                    if set(back.ports) != {nr}:
+                        v.fail("name:two-spellings-in-a-list:rendered-text-means-other-numbers",
+                               {"case": case, "text": text, "rendered": pp.line})
+    # through Ace: name on both sides, 'log' must stay an option; the protocol as keyword and as number
+    pnum = {"tcp": "6", "udp": "17"}[proto]
+    for port_nr, ptxt in ((False, proto), (True, proto), (False, pnum), (True, pnum)):
+        ace = Ace(f"permit {ptxt} any eq {name} any eq {name} log", platform=platform, version=version, port_nr=port_nr)
         if ace.srcport.ports != [nr] or ace.dstport.ports != [nr]:
             v.fail("name:Ace-splits-name-wrongly", {"case": case, "line": ace.line})
         if ace.option.logs != ["log"] or ace.option.flags:
